@@ -47,7 +47,16 @@ RULE = (
     'in the unit; a raise inside netCDF4/cftime is counted, not judged) and '
     'time2idx(getTimes()) == arange(n); in 3/4 of the cases date2num is '
     'also given the same instants re-expressed at UTC-06:00, +05:30 or '
-    '+09:00 and must return the same numbers.  coordutil.gettimes (functional '
+    '+09:00 and must return the same numbers.  In 1/3 of the standard-'
+    'family cases a second phase follows on the SAME file object: the '
+    'units attribute is rewritten (other unit word and/or reference moved '
+    'by whole days), getTimes must decode the stored numbers under the new '
+    'units and date2num(getTimes()) must again return them.  '
+    'getTimes(datetype=datetime64[s|ms|us|m]) (5/8 of the cf, ioapi and tau '
+    'cases): dtype as requested and every element the UTC instant of the '
+    'validated datetime result floored to the unit (numpy datetime64 is '
+    'naive UTC; numpy itself converts aware datetimes to UTC).  '
+    '  coordutil.gettimes (functional '
     'form, centres only) is judged on the same instants.  ioapi: TFLAG files '
     '(regular series and irregular rows), SDATE/STIME/TSTEP-only files, '
     'ioapi_base.from_arrays, each optionally passed through '
@@ -69,8 +78,8 @@ ASSUMPTIONS = ['stdlib datetime (proleptic Gregorian day count) for instants '
                '>= 1600; cftime.num2date as second opinion for the fixed-'
                'length calendars',
                'descending time axes are left to C16 (time2idx front-end)',
-               'datetype != "datetime" (numpy datetime64 output) not '
-               'generated']
+               'numpy converts timezone-aware datetimes to UTC when building '
+               'datetime64 arrays (checked on the installed numpy 2.5)']
 BUDGET = {'quick': dict(examples=12800, max_s=200),
           'thorough': dict(examples=200000, max_s=3000)}
 EXHAUSTIVE_NOTE = ('thorough tier: every (year 1970-2100, day of year, hour '
@@ -917,6 +926,71 @@ def check_cf(spec, r):
                '(stored %r, units %r)' % (idx, n - 1, stored,
                                           units_of(spec)),
                klass='%s/%s%s' % (fam, sub, sym))
+        return
+    # ---- second phase on the SAME file object: the time axis is re-based by
+    # rewriting the units attribute (same stored numbers, so other instants);
+    # decoding and the date2num round trip must follow the axis as it is now
+    rb = spec.get('rebase')
+    if rb and fam == 'standard':
+        d0 = dt.date(ref[0], ref[1], ref[2]) + dt.timedelta(
+            days=rb['dayshift'])
+        spec2 = dict(spec, ref=[d0.year, d0.month, d0.day] + list(ref[3:]),
+                     unit=rb['unit'] or unit)
+        unit2 = spec2['unit']
+        # the re-based instants must stay inside the property's domain
+        # (no mixed Julian/Gregorian dates, no datetime overflow)
+        span = max(abs(Fraction(v)) for v in stored) * CT.UNIT_US[unit2]
+        if span > 250 * 366 * CT.DAY_US:
+            r.label('rebase-skipped:out-of-domain')
+            return
+        f.variables['time'].units = units_of(spec2)
+        r.label('rebased:%s' % ('unit+ref' if unit2 != unit and
+                                rb['dayshift'] else
+                                ('unit' if unit2 != unit else
+                                 ('ref' if rb['dayshift'] else 'same'))))
+        with np.errstate(all='ignore'):
+            exc, cent2 = attempt(f.getTimes)
+        if exc is not None:
+            r.label('rebased-getTimes-raised')
+            return
+        base2 = CT.utc_reference(spec2['ref'], spec['off'])
+        c2 = _as_list(cent2)
+        if len(c2) != n:
+            r.fail('cf-instant-rebased', 'after re-basing getTimes returned '
+                   '%d datetimes' % len(c2), klass=fam)
+            return
+        for g, v in zip(c2, stored):
+            tol = 2 + int(abs(Fraction(v)) * CT.UNIT_US[unit2] *
+                          Fraction(1, 2 ** 50))
+            if abs(Fraction(CT.us_between(base2, _aware(g))) -
+                   CT.value_us(v, unit2)) > tol:
+                r.fail('cf-instant-rebased', 'units rewritten to %r on the '
+                       'same file: stored %r decoded as %s' % (
+                           units_of(spec2), v, _fmt(g)), klass=fam)
+                return
+        with np.errstate(all='ignore'):
+            exc, nums3 = attempt(f.date2num, cent2)
+        if exc is not None:
+            r.label('rebased-date2num-raised')
+            return
+        nums3 = np.atleast_1d(np.asarray(nums3))
+        ok3 = nums3.shape == (n,)
+        if ok3:
+            for a, v in zip(nums3.tolist(), stored):
+                atol = Fraction(1, CT.UNIT_US[unit2]) * (
+                    1 + int(abs(Fraction(v)) * CT.UNIT_US[unit2] *
+                            Fraction(1, 2 ** 49)))
+                if abs(Fraction(a) - Fraction(v)) > \
+                        Fraction(1, 10 ** 12) * abs(Fraction(v)) + atol:
+                    ok3 = False
+        if not ok3:
+            r.fail('cf-date2num-rebased', 'units rewritten from %r to %r on '
+                   'the same file: date2num(getTimes()) = %r but the stored '
+                   'numbers are %r' % (units_of(spec), units_of(spec2),
+                                       nums3.tolist()[:4], stored[:4]),
+                   klass=fam)
+        else:
+            r.label('rebased-roundtrip-ok')
 
 
 # ------------------------------------------------------------------ IOAPI
